@@ -49,6 +49,13 @@ type State struct {
 	pc    []string
 	alloc string
 	epoch string
+	// errs: error values obtained from calls on this path (for the "no error is dropped" check)
+	errs []errRec
+}
+
+type errRec struct {
+	term string
+	from string
 }
 
 func (s *State) clone() *State {
@@ -60,6 +67,7 @@ func (s *State) clone() *State {
 		n.heap[k] = v
 	}
 	n.pc = append([]string(nil), s.pc...)
+	n.errs = append([]errRec(nil), s.errs...)
 	return n
 }
 
@@ -145,6 +153,9 @@ type Unit struct {
 	frameSites map[string]int
 	atAsserts map[*ast.CallExpr][]*Clause
 	refMapValue map[string]bool
+	frameAlloc string
+	revealing  bool
+	readTrace  map[string]bool
 	globalMode bool
 	globalRefs []string
 	inCommute bool
@@ -181,8 +192,23 @@ func (u *Unit) oblige(st *State, name, kind, goal string, props []string, cl *Cl
 	if goal != "true" && syntacticallyImplied(st.pc, goal) {
 		goal = "true"
 	}
-	if len(o.Instances) > 400 {
+	if len(o.Instances) > 600 {
 		u.fail("too many path instances for obligation %s (VC size cap)", full)
+	}
+	// a conjunction is checked conjunct by conjunct (smaller queries, better diagnostics)
+	if strings.HasPrefix(goal, "(and ") && kind != "cover" {
+		conj := map[string]bool{}
+		flattenAnd(goal, conj)
+		pc := append([]string(nil), st.pc...)
+		var parts []string
+		for c := range conj {
+			parts = append(parts, c)
+		}
+		sort.Strings(parts)
+		for _, c := range parts {
+			o.Instances = append(o.Instances, ObInstance{PC: pc, Goal: c, Note: short(c)})
+		}
+		return
 	}
 	o.Instances = append(o.Instances, ObInstance{PC: append([]string(nil), st.pc...), Goal: goal})
 }
@@ -205,6 +231,9 @@ func (u *Unit) cover(st *State, name string, desc string) {
 // heap helpers
 
 func (u *Unit) heapTerm(st *State, key, sort string) string {
+	if u.readTrace != nil {
+		u.readTrace[key] = true
+	}
 	if t, ok := st.heap[key]; ok {
 		return t
 	}
@@ -253,9 +282,23 @@ func (u *Unit) havocHeap(st *State, key string) {
 			}
 		}
 	}
+	oldTerm, hadOld := st.heap[key]
 	st.heap[key] = u.reg.fresh("H_"+sanitize(key), sort)
 	if isSymbol(st.alloc) {
 		u.heapWF(key, st.heap[key], sort, st.alloc)
+	}
+	// immutable fields of objects that already exist keep their values
+	if u.prog.CS.Immutable[key] {
+		if !hadOld {
+			oldTerm = "H_" + sanitize(key) + "_0"
+		}
+		al := st.alloc
+		if u.frameAlloc != "" {
+			al = u.frameAlloc
+		}
+		u.reg.counter++
+		r := fmt.Sprintf("q_r!%d", u.reg.counter)
+		st.assume(fmt.Sprintf("(forall ((%s Int)) (! (=> (<= %s %s) (= (select %s %s) (select %s %s))) :pattern ((select %s %s))))", r, r, al, st.heap[key], r, oldTerm, r, st.heap[key], r))
 	}
 }
 
@@ -510,6 +553,11 @@ func (u *Unit) merge(a, b *State) *State {
 		if va.Closure != vb.Closure {
 			nv.Closure = nil
 		}
+		if va.FuncObj != vb.FuncObj {
+			// different statically known functions on the two branches: the merged value is an unknown function
+			nv.FuncObj = nil
+			nv.Recv = nil
+		}
 		out.env[k] = nv
 	}
 	keys := map[string]bool{}
@@ -530,6 +578,25 @@ func (u *Unit) merge(a, b *State) *State {
 		al := u.reg.fresh("alloc", "Int")
 		out.assume(eq(al, ite(m, a.alloc, b.alloc)))
 		out.alloc = al
+	}
+	// error values seen on only one side are nil on the other
+	inB := map[string]bool{}
+	for _, e := range b.errs {
+		inB[e.term] = true
+	}
+	inA := map[string]bool{}
+	for _, e := range a.errs {
+		inA[e.term] = true
+		if inB[e.term] {
+			out.errs = append(out.errs, e)
+		} else {
+			out.errs = append(out.errs, errRec{term: ite(m, e.term, "0"), from: e.from})
+		}
+	}
+	for _, e := range b.errs {
+		if !inA[e.term] {
+			out.errs = append(out.errs, errRec{term: ite(m, "0", e.term), from: e.from})
+		}
 	}
 	out.epoch = a.epoch
 	if a.epoch != b.epoch {
